@@ -26,9 +26,11 @@ COMPONENTS = {"real": ["Hedger.compute_hedge / compute_portfolio / compute_loss 
                        "bisection-based quadratic CVaR and OCE, torch autograd"],
               "stub": ["central finite differences along seeded unit directions (reference)", "RecModel with live tensors (graph monitor)"]}
 ASSUMPTIONS = ["float64 only; central differences along random unit directions with h = 1e-6*(1+|theta|), threshold 1e-4 relative + 1e-9 "
-               "absolute (3e-3 relative for quadratic CVaR, whose value comes from a bisection of precision 1e-6); a mismatch must persist for h/10 and 10h (a kink of a piecewise-linear criterion inside the stencil does not)",
+               "absolute (for quadratic CVaR 3e-3 relative plus the envelope term 2*lam*1e-6*mean|dPL/dtheta|: its inner minimiser comes from a bisection of "
+               "precision 1e-6 and is held constant by autograd); a mismatch must persist for h/10, 10h, h/100 and h/1000 (a kink of a piecewise-linear "
+               "criterion or of the cost term inside the stencil does not)",
                "smooth activations only (a ReLU kink is not a generic parameter point)"]
-PROBES = ["fd_frozen", "fd_replay", "prev_hedge_in_loss", "cost_positive", "H2", "criterion_parameter", "after_fit", "no_graph_price",
+PROBES = ["evaluation_only_call_raised", "fd_frozen", "fd_replay", "prev_hedge_in_loss", "cost_positive", "H2", "criterion_parameter", "after_fit", "no_graph_price",
           "no_graph_loss", "ambient_enable_grad", "ambient_no_grad", "graph_monitor", "fd_retry_other_h", "listed_hedge", "n_times_ge2", "eval_mode", "fd_truncation_dominated"]
 CRITS = ["EntropicRiskMeasure", "ExpectedShortfall", "QuadraticCVaR", "EntropicLoss", "IsoelasticLoss", "OCE", "MSELoss", "L1Loss"]
 
@@ -101,8 +103,12 @@ def _get_flat(ps):
     return torch.cat([p.detach().reshape(-1) for p in ps]).clone()
 
 
-def _fd_check(h, loss_fn, seed, site, cfg, stats, seq, rtol=1e-4):
-    """autograd gradient of loss_fn() vs central differences along seeded unit directions"""
+def _fd_check(h, loss_fn, seed, site, cfg, stats, seq, rtol=1e-4, envelope=None):
+    """autograd gradient of loss_fn() vs central differences along seeded unit directions.
+
+    envelope = (pl_fn, lam, precision) for quadratic CVaR: the criterion is min_w F(pl, w) with the inner minimiser found by
+    bisection to `precision` and held constant by autograd; the gradient is therefore exact only up to
+    |d2F/(dw dtheta)| * |w~ - w*| <= 2 lam mean|d pl / d theta| precision, which is added to the tolerance."""
     ps = _flat_params(h)
     if not ps:
         return False
@@ -126,7 +132,11 @@ def _fd_check(h, loss_fn, seed, site, cfg, stats, seq, rtol=1e-4):
         v = v / v.norm().clamp(min=1e-300)
         ana = float((g * v).sum())
         bad = []
-        for mult in (1.0, 0.1, 10.0):
+        # piecewise-smooth losses (|trade| in the cost term, the worst-path selection of expected shortfall) have kinks; a base
+        # point may lie within h of one, where the central quotient averages two slopes. The quotient is therefore retried with
+        # smaller steps (all parameters are float64 here): a right gradient is met once h is below the distance to the kink, a
+        # wrong one is not met at any h.
+        for mult in (1.0, 0.1, 10.0, 0.01, 0.001):
             hstep = 1e-6 * (1.0 + float(theta0.norm())) * mult
             with torch.no_grad():
                 _set_flat(ps, theta0 + hstep * v)
@@ -135,7 +145,20 @@ def _fd_check(h, loss_fn, seed, site, cfg, stats, seq, rtol=1e-4):
                 lm = float(loss_fn())
             fd = (lp - lm) / (2 * hstep)
             stats.checks += 1
-            if abs(fd - ana) <= rtol * max(abs(fd), abs(ana)) + 1e-9:
+            extra = 0.0
+            if envelope is not None and not abs(fd - ana) <= rtol * max(abs(fd), abs(ana)) + 1e-9:
+                pl_fn, lam, prec = envelope
+                with torch.no_grad():
+                    _set_flat(ps, theta0 + hstep * v)
+                    plp = pl_fn()
+                    _set_flat(ps, theta0 - hstep * v)
+                    plm = pl_fn()
+                extra = max(2.0 * lam * prec * float(((a - b) / (2 * hstep)).abs().mean()) for a, b in zip(plp, plm))
+                if extra == extra and extra > 0:
+                    stats.probe("envelope_precision_term")
+                else:
+                    extra = 0.0
+            if abs(fd - ana) <= rtol * max(abs(fd), abs(ana)) + 1e-9 + extra:
                 bad = None
                 if mult != 1.0:
                     stats.probe("fd_retry_other_h")
@@ -235,12 +258,23 @@ def _execute(program, stats, hist):
             if name == "fd_frozen":
                 def loss_fn():
                     return h.criterion(h.compute_portfolio(d, hedge=hedge), d.payoff())
+
+                def pl_fn():
+                    return [h.compute_portfolio(d, hedge=hedge) - d.payoff()]
                 site = "criterion(compute_portfolio,payoff)[%s]" % ("stepwise" if has_prev else "vectorised")
                 stats.probe("fd_frozen")
             else:
                 def loss_fn():
                     torch.manual_seed(op["torch_seed"])
                     return h.compute_loss(d, hedge=hedge, n_paths=op["n_paths"], n_times=op["n_times"])
+
+                def pl_fn():
+                    torch.manual_seed(op["torch_seed"])
+                    out = []
+                    for _ in range(op["n_times"]):
+                        d.simulate(n_paths=op["n_paths"])
+                        out.append(h.compute_portfolio(d, hedge=hedge) - d.payoff())
+                    return out
                 site = "compute_loss[%s]" % ("stepwise" if has_prev else "vectorised")
                 stats.probe("fd_replay")
                 stats.fault("F7_rng_replay")
@@ -256,7 +290,8 @@ def _execute(program, stats, hist):
                 # quadratic CVaR solves its inner minimisation by bisection to precision ~1e-6: the autograd gradient carries
                 # an error of order 2*lam*precision*|d omega/d theta| (envelope term not exactly zero), i.e. up to ~1e-3 relative
                 rtol = 3e-3 if cspec["kind"] == "QuadraticCVaR" else 1e-4
-                did = _fd_check(h, loss_fn, op["seed"], site, cfg, stats, seq, rtol=rtol)
+                env = (pl_fn, float(cspec.get("lam", 10.0)), 1e-6) if cspec["kind"] == "QuadraticCVaR" else None
+                did = _fd_check(h, loss_fn, op["seed"], site, cfg, stats, seq, rtol=rtol, envelope=env)
             except (Violation, Inconclusive):
                 raise
             except Exception as e:
@@ -288,17 +323,30 @@ def _execute(program, stats, hist):
             if amb:
                 stats.fault("F5_ambient_grad_flip")
                 stats.probe("ambient_" + amb)
+            leaked = [None]
             try:
                 with _grad_ctx(amb):
-                    if op["which"] == "price":
-                        out = h.price(d, hedge=hedge, n_paths=op["n_paths"], n_times=op.get("n_times", 1))
-                        site = "price()"
-                        stats.probe("no_graph_price")
-                    else:
-                        out = h.compute_loss(d, hedge=hedge, n_paths=op["n_paths"], n_times=op.get("n_times", 1), enable_grad=False)
-                        site = "compute_loss(enable_grad=False)"
-                        stats.probe("no_graph_loss")
+                    ambient_on = torch.is_grad_enabled()
+                    try:
+                        if op["which"] == "price":
+                            site = "price()"
+                            out = h.price(d, hedge=hedge, n_paths=op["n_paths"], n_times=op.get("n_times", 1))
+                            stats.probe("no_graph_price")
+                        else:
+                            site = "compute_loss(enable_grad=False)"
+                            out = h.compute_loss(d, hedge=hedge, n_paths=op["n_paths"], n_times=op.get("n_times", 1), enable_grad=False)
+                            stats.probe("no_graph_loss")
+                    finally:
+                        # whether the call returns or raises, the caller's autograd mode is the caller's: an evaluation-only
+                        # quantity that leaves gradients switched off makes every later loss graph-less
+                        leaked[0] = (ambient_on, torch.is_grad_enabled())
             except Exception as e:
+                torch.set_grad_enabled(True)
+                stats.checks += 1
+                if leaked[0] is not None and leaked[0][0] != leaked[0][1]:
+                    raise Violation(ID, "grad_mode_leaked", site + "[raised]", dict(cfg, ambient=amb, before=leaked[0][0], after=leaked[0][1],
+                                                                                     error=repr(e)[:200]), seq)
+                stats.probe("evaluation_only_call_raised")
                 if op["which"] == "price" and cspec["kind"] in ("MSELoss", "L1Loss"):
                     continue  # torch losses have no cash(): price is not defined for them
                 if not _pl_admissible(h, d, hedge, cspec):
@@ -306,6 +354,9 @@ def _execute(program, stats, hist):
                 raise Violation(ID, "op_raised", "%s:%s" % (op["which"], type(e).__name__), dict(cfg, error=repr(e)[:300]), seq)
             finally:
                 torch.set_grad_enabled(True)
+            stats.checks += 1
+            if leaked[0] is not None and leaked[0][0] != leaked[0][1]:
+                raise Violation(ID, "grad_mode_leaked", site, dict(cfg, ambient=amb, before=leaked[0][0], after=leaked[0][1]), seq)
             stats.checks += 1
             if out.requires_grad or out.grad_fn is not None:
                 raise Violation(ID, "graph_on_evaluation_only_quantity", site, dict(cfg, ambient=amb), seq)
